@@ -303,7 +303,10 @@ func c04Run(r *core.Run) {
 
 		keyNames := []string{"k1", "k2", "k3", "a1", "a2", "a3", "a4", "kt", "nosuchkey"}
 		identNames := []string{"client-fp-1", "client-fp-2", "client-unknown-1", "ca-1-client-a", "ca-1-client-expired", "ca-2-client-a",
-			"ca-1-client-a", "ca-1-client-a-self", "ca-1-client-a-otherca", "ca-1-client-a-lapsed", ""}
+			"ca-1-client-a", "ca-1-client-a-self", "ca-1-client-a-otherca", "ca-1-client-a-lapsed", "public-client", ""}
+		// ("public-client": a certificate with the client-authentication usage that
+		// chains to a root of the operating system's trust store, which no
+		// configuration here mentions)
 		var signed []map[string]string // expectations for audit records
 		for i := 0; i < nreq; i++ {
 			var q c04Req
@@ -327,7 +330,18 @@ func c04Run(r *core.Run) {
 					viaProxy = true
 					q.XFF = []string{core.Pick(t, "xff", "198.51.100.7", "198.51.100.7, 10.0.0.1", "203.0.113.9, 198.51.100.7")}
 					q.SCC = identNames[t.Choose(len(identNames)-1, "scc-ident")]
-					q.TLS = "" // the proxy itself presents no client certificate
+					if t.Chance(1, 3, "proxy-has-own-certificate") {
+						// the proxy connects with a client certificate of its own (q.TLS,
+						// often one the configuration recognises): it speaks for its
+						// clients only through the header, and a caller for whom it
+						// forwards no certificate has presented none
+						if t.Chance(1, 2, "forwarded-without-certificate") {
+							q.SCC = ""
+						}
+						r.Fault("proxy-with-own-client-certificate")
+					} else {
+						q.TLS = "" // the proxy itself presents no client certificate
+					}
 				}
 			} else {
 				q.Peer = core.Pick(t, "peer", "192.0.2.9:1234", "11.0.0.1:80", "172.16.0.3:4000")
